@@ -127,7 +127,6 @@ func locate(md protoreflect.MessageDescriptor, method, uri string, body []byte) 
 func buildRouteUnits(c *Ctx, l *lab.Lab, family string, baseIdxs []int, full bool) ([]*routeUnit, error) {
 	var units []*routeUnit
 	lit := 0
-	tsDir := filepath.Join(l.Dir, "ts")
 	type bs struct {
 		bi  int
 		sub string
@@ -147,55 +146,11 @@ func buildRouteUnits(c *Ctx, l *lab.Lab, family string, baseIdxs []int, full boo
 			goName = fmt.Sprintf("r%d%s%s", n, corpus.BaseVariants[bi].Label, it.sub)
 		}
 		f, cases := corpus.RoutingFile(bi, it.sub, pkg, "lab/gen/"+goName, goName, &lit, full)
-		u := &routeUnit{File: f, Cases: cases, Docs: map[string]*oas.Doc{}, Refused: map[string]string{}}
-		req, err := spec.Request([]*spec.File{f}, nil, "")
+		u, err := buildUnitFromFile(c, l, f)
 		if err != nil {
 			return nil, err
 		}
-		reg, err := spec.Files(req)
-		if err != nil {
-			return nil, err
-		}
-		u.Reg = reg
-		ad, err := l.Add(req, lab.PkgOpt{Plugins: []string{"go-http", "go-client"}, Tag: pkg})
-		if err != nil {
-			return nil, err
-		}
-		if ad.Refused != "" {
-			u.Refused["go"] = ad.Refused
-		}
-		u.Dir = filepath.Join("gen", goName)
-		for _, p := range []string{"ts-client", "ts-server", "openapiv3"} {
-			res := c.TB.Run(p, req, plugin.RunOpt{})
-			c.R.Eval(1)
-			if !res.OK() {
-				u.Refused[p] = fmt.Sprintf("crash=%s error=%s", res.Crash, res.Error)
-				continue
-			}
-			for name, content := range res.Files {
-				switch p {
-				case "openapiv3":
-					d, err := oas.Parse(name, content)
-					if err != nil {
-						u.Refused[p] = "unparsable document: " + err.Error()
-						continue
-					}
-					svcName := strings.TrimSuffix(strings.TrimSuffix(filepath.Base(name), ".openapi.yaml"), ".openapi.json")
-					u.Docs[svcName] = d
-				default:
-					dst := filepath.Join(tsDir, goName, filepath.Base(name))
-					_ = os.MkdirAll(filepath.Dir(dst), 0o755)
-					if err := os.WriteFile(dst, []byte(content), 0o644); err != nil {
-						return nil, err
-					}
-					if p == "ts-client" {
-						u.TSClient = dst
-					} else {
-						u.TSServer = dst
-					}
-				}
-			}
-		}
+		u.Cases = cases
 		units = append(units, u)
 	}
 	return units, nil
@@ -625,4 +580,69 @@ func partition(m map[string][]string) string {
 	}
 	sort.Strings(groups)
 	return strings.Join(groups, " != ")
+}
+
+// buildUnitFromFile runs every generator on one file: Go code into the lab, TS files and
+// OpenAPI documents next to it.
+func buildUnitFromFile(c *Ctx, l *lab.Lab, f *spec.File) (*routeUnit, error) {
+	tsDir := filepath.Join(l.Dir, "ts")
+	goName := f.GoName
+	pkg := f.Package
+	{
+		u := &routeUnit{File: f, Docs: map[string]*oas.Doc{}, Refused: map[string]string{}}
+		req, err := spec.Request([]*spec.File{f}, nil, "")
+		if err != nil {
+			return nil, err
+		}
+		reg, err := spec.Files(req)
+		if err != nil {
+			return nil, err
+		}
+		u.Reg = reg
+		ad, err := l.Add(req, lab.PkgOpt{Plugins: []string{"go-http", "go-client"}, Tag: pkg, Helpers: true})
+		if err != nil {
+			return nil, err
+		}
+		if ad.Refused != "" {
+			u.Refused["go"] = ad.Refused
+		}
+		u.Dir = filepath.Join("gen", goName)
+		for _, p := range []string{"ts-client", "ts-server", "openapiv3"} {
+			res := c.TB.Run(p, req, plugin.RunOpt{})
+			c.R.Eval(1)
+			if !res.OK() {
+				u.Refused[p] = fmt.Sprintf("crash=%s error=%s", res.Crash, res.Error)
+				continue
+			}
+			for name, content := range res.Files {
+				switch p {
+				case "openapiv3":
+					d, err := oas.Parse(name, content)
+					if err != nil {
+						u.Refused[p] = "unparsable document: " + err.Error()
+						continue
+					}
+					svcName := strings.TrimSuffix(strings.TrimSuffix(filepath.Base(name), ".openapi.yaml"), ".openapi.json")
+					u.Docs[svcName] = d
+				default:
+					dst := filepath.Join(tsDir, goName, filepath.Base(name))
+					_ = os.MkdirAll(filepath.Dir(dst), 0o755)
+					if err := os.WriteFile(dst, []byte(content), 0o644); err != nil {
+						return nil, err
+					}
+					if p == "ts-client" {
+						u.TSClient = dst
+					} else {
+						u.TSServer = dst
+					}
+				}
+			}
+		}
+		return u, nil
+	}
+}
+
+func readFile(p string) (string, error) {
+	b, err := os.ReadFile(p)
+	return string(b), err
 }
